@@ -210,7 +210,14 @@ def tlc(ctx, module, cfg, *, workers=None, timeout=600, args=(), env=None, deque
 def mc(ctx, module, cfg, *, expect_ok=True, **kw):
     """Exhaustive model check of the design. A design error on the unchanged spec is exit 2
     (the spec is wrong or a design counterexample needs reproduction) - never a VIOLATION."""
+    done = getattr(ctx, "_mc_done", None)
+    if done is None:
+        done = ctx._mc_done = {}
+    if (module, cfg) in done:          # the same configuration was already checked in this run (shared stages)
+        return done[(module, cfg)]
     r = tlc(ctx, module, cfg, **kw)
+    if r.completed:
+        done[(module, cfg)] = r
     ctx.cov["configs"].append({"module": module, "cfg": cfg, "distinct": r.distinct,
                                "generated": r.generated, "wall_s": round(r.wall, 1),
                                "completed": r.completed})
